@@ -268,9 +268,29 @@ def _storage_task(task, p):
     p.sample(sub, {"dtypes": list(TEMPLATE_DTYPES), "family": kind})
 
 
+def _tail_task(task, p):
+    """Daily axes that do not end (or begin) on a marked day: unmarked tails and heads of 0..20 days after / before
+    regular marks (the fitted curve continues as a straight line there; its last pivots are tiny with lambda 1e-5)."""
+    spacing = task
+    sub = "unmarked_tails"
+    nobs = 12
+    t = np.arange(nobs)
+    for head in (0, 3, 9):
+        for tail in range(0, 21):
+            L = head + (nobs - 1) * spacing + 1 + tail
+            tmpl = np.zeros(L)
+            tmpl[head:head + (nobs - 1) * spacing + 1:spacing] = 1
+            x = np.round(4000 + 3000 * np.sin(t * spacing / 365 * 2 * np.pi) + 600 * np.sin(t / 2.3)).astype(np.int64)
+            labels = (np.arange(L) // 10).astype(np.int32)
+            check_batch(np.stack([x, np.full(nobs, 10000), np.full(nobs, 7), 10 * t - 500]), tmpl, labels, p, sub)
+            p.count(sub, nontrivial=4)
+    p.sample(sub, {"spacing": spacing, "observations": nobs, "heads": [0, 3, 9], "tails": "0..20 unmarked days"})
+
+
 def long_family(ctx):
     nobs_list = (100, 400) if ctx.thorough() else (100,)
     ctx.pmap(_long_task, [(n, s) for n in nobs_list for s in (16, 10, 8, 5)])
+    ctx.pmap(_tail_task, [16, 10, 8, 5])
 
 
 def run(ctx):
